@@ -131,7 +131,57 @@ def structural_exception(prog, fn, call, idx, na):
             return False
         if all(a[0] == 'link' and a[2] in ('left', 'right') and nonroot_parent_of(a[1]) for a in atoms):
             return R_SIBLING
+    # anywhere inside the rebalancing: the links it follows (uncle, sibling, nephews, grandparent) exist because of the
+    # red-black shape invariants, whichever way the cases are written
+    if fn.path in repair_region(prog) and all(a[0] in ('link', 'param', 'root') for a in atoms):
+        return R_REPAIR
     return None
+
+
+R_REPAIR = ('a link followed inside the rebalancing after an insertion or removal (code that recolours existing nodes, and its '
+            'private helpers): uncle, sibling, nephews and grandparent exist by the red-black shape invariants (C02, assumed here; '
+            'its structural part is checked by TWIN / LINKPAIR / COLOR / CLIMB)')
+
+
+def repair_region(prog):
+    """functions of the trees that recolour an existing node, plus the private functions reachable from them but from no
+    public entry point otherwise"""
+    key = ('repairregion',)
+    if key in prog._summ_cache:
+        return prog._summ_cache[key]
+    seeds = set()
+    for f in prog.fns.values():
+        if f.self_adt not in prog.tree_adts or f.is_closure or f.trait_item:
+            continue
+        for st in f.body.stores:
+            acc = prog.accessor_call(strip(st.root))
+            if acc is None or st.fields() != ('color',):
+                continue
+            x = strip(acc[2])
+            if prog.is_nil_index(x):
+                continue
+            ats = origins(prog, f, x)
+            if ats and all(a[0] == 'pop' for a in ats):
+                continue        # colouring a freshly allocated node is insertion, not repair
+            seeds.add(f.path)
+    R = set()
+    for pth in seeds:
+        for g in prog.closure(prog.fns[pth]):
+            if g.self_adt in prog.tree_adts and not g.is_closure and g.path not in prog.accessors:
+                R.add(g.path)
+    # reachable from a public entry without passing through a recolouring function
+    I = set()
+    stack = [f for f in prog.fns.values() if (f.trait_item or f.vis == 'Public') and not f.is_closure]
+    while stack:
+        f = stack.pop()
+        if f.path in I or f.path in seeds:
+            continue
+        I.add(f.path)
+        for _, t in prog.callees(f):
+            stack.append(t)
+    out = (R - I) | seeds
+    prog._summ_cache[key] = out
+    return out
 
 
 def na_nonroot_param(na, fn, x):
